@@ -35,8 +35,11 @@ def known_findings():
 
 
 def write_evidence(pid, ev):
-    os.makedirs(os.path.join(common.VERIF, "evidence"), exist_ok=True)
-    path = os.path.join(common.VERIF, "evidence", pid + ".json")
+    # evidence/ describes /repo itself; runs against a scratch copy (VERIF_REPO, used by the seeded-change
+    # self-test) write theirs under .work so that they never overwrite it
+    edir = os.path.join(common.VERIF, "evidence") if common.REPO == "/repo" else os.path.join(common.WORK, "evidence-scratch")
+    os.makedirs(edir, exist_ok=True)
+    path = os.path.join(edir, pid + ".json")
     tmp = path + ".tmp"
     with open(tmp, "w") as f:
         json.dump(ev, f, indent=1)
